@@ -461,11 +461,44 @@ def gen_case(rng, thorough):
     return c
 
 
+def gen_exclusive_family(rng, VENDOR):
+    """Generators overlapping on one yielded row, one of them matching it with SEVERAL rules whose cant_delete
+    flags differ (a broad deletable rule and a pinned %cant_delete one, ranked by specificity or %prio):
+    a generator can delete the row as soon as ONE of its matching rules is deletable."""
+    base = rng.choice(["alpha", "port", "vlan", "ip"])
+    row = f"{base} 1"
+    it = aclgen._it
+    gens = []
+    ng = rng.choice([2, 2, 3])
+    for j in range(ng):
+        items = []
+        if j == 0 or rng.random() < 0.35:
+            broad = it(rng.choice([f"{base} *", f"{base} ~", "~", f"{base} */[0-9]+/"]), cd=[rng.random() < 0.25])
+            pinned = it(row, cd=[rng.random() < 0.75])
+            if rng.random() < 0.25:
+                broad["prio"], broad["prio_explicit"] = rng.choice([1, 2]), True
+            items = [broad, pinned]
+            if rng.random() < 0.3:
+                items.append(it(f"{base} 1 ~", cd=[rng.random() < 0.5]))
+            if rng.random() < 0.5:
+                items.reverse()
+        else:
+            items = [it(rng.choice([row, f"{base} *", f"{base} ~", "~"]), cd=[rng.random() < 0.3])]
+        tree = {row: {}}
+        if rng.random() < 0.4:
+            tree[f"{base} 2"] = {}
+        gens.append({"name": f"G{j}", "items": items, "prog": prog_of_tree(rng, tree)})
+    return gens
+
+
 def gen_case_v(rng, VENDOR):
     fam = rng.random()
     ng = rng.choice([1, 2, 2, 2, 3, 3, 4])
     gens = []
-    if fam < 0.5:
+    if fam < 0.1:
+        gens = gen_exclusive_family(rng, VENDOR)
+        family = "exclusive-several-rules-per-generator"
+    elif fam < 0.5:
         # ACL-driven: structured ACLs of the shared generator, trees drawn from them
         rev = aclgen.VENDORS[VENDOR]
         prev = None
